@@ -469,7 +469,7 @@ pub fn generate_run(rng: &mut Rng, n: usize, _tier: &str, dialects: &[&str], fla
         if rng.chance(1, 6) {
             // re-encoded atoms (heap representation) — same outcome expected
             let natoms = count_atoms(&p) + count_atoms(&e);
-            let tags: String = (0..natoms).map(|_| if rng.chance(1, 2) { 'H' } else { '-' }).collect();
+            let tags: String = (0..natoms).map(|_| *rng.pick(&['H', 'H', 'H', '-', '-', '-', '-', 'E'])).collect();
             out.push(format!("RUN r{} {} {:x} 0 - {} {} {}", id, dialect, flags, ph, eh, tags));
             id += 1;
         }
@@ -596,7 +596,7 @@ pub fn generate_op(rng: &mut Rng, n: usize, _tier: &str, only: Option<&[&str]>) 
             _ => 100_000_000_000u64,
         };
         let natoms = count_atoms(&list);
-        let tags: String = if rng.chance(1, 5) { (0..natoms).map(|_| if rng.chance(1, 2) { 'H' } else { '-' }).collect() } else { String::new() };
+        let tags: String = if rng.chance(1, 5) { (0..natoms).map(|_| *rng.pick(&['H', 'H', 'H', '-', '-', '-', '-', 'E'])).collect() } else { String::new() };
         out.push(format!("OP o{} {} {:x} {} {} {}", id, name, flags, budget, trees::to_hex(&list), tags).trim_end().to_string());
     }
     out
